@@ -138,6 +138,9 @@ pub enum TyperError {
     /// String types should not appear in main language
     StringNotSupported(SourceLocation),
 
+    /// An integer literal with an unsigned suffix does not fit in 32 bits
+    IntegerLiteralTooLarge(u64, SourceLocation),
+
     /// A type modifier was used in a context where it is not allowed to be used
     ModifierNotSupported(ast::TypeModifier, SourceLocation, TypePosition),
 
@@ -819,6 +822,11 @@ impl CompileError for TyperExternalError {
             ),
             TyperError::StringNotSupported(loc) => w.write_message(
                 &|f| write!(f, "string may not be used"),
+                *loc,
+                Severity::Error,
+            ),
+            TyperError::IntegerLiteralTooLarge(value, loc) => w.write_message(
+                &|f| write!(f, "integer literal {value}u does not fit in 32 bits"),
                 *loc,
                 Severity::Error,
             ),
